@@ -97,6 +97,7 @@ type Exec struct {
 	powSeq    int
 	timers    []*TimerV
 	overreadLen bool
+	seedSummary bool
 	speculative bool
 	merges      int
 }
